@@ -363,7 +363,7 @@ func (c *ownChecker) analyse(fi *FuncInfo, returnsRef bool) {
 		return c.r.L.str(e)
 	}
 	fn := fi.Key
-	a := &Analysis[*OState]{L: c.r.L, Info: info, Join: oJoin, Equal: oEqual, Copy: oCopy, Wrappers: c.m.DB.Wrappers}
+	a := &Analysis[*OState]{L: c.r.L, Info: info, Join: oJoin, Equal: oEqual, Copy: oCopy, Wrappers: c.m.DB.Wrappers, ExitPerClass: true}
 	// New private helpers (judged in their callers' context, ServerModel.transparent) are
 	// analysed in place: references and Files they hand out through their results are taken
 	// over by the variables the caller assigns them to.
@@ -675,6 +675,7 @@ func (c *ownChecker) analyse(fi *FuncInfo, returnsRef bool) {
 				}
 			}
 		case *ast.ReturnStmt:
+			notHeld := map[string]bool{}
 			if inHelper && fc.Inl != nil {
 				// a helper analysed in place hands its results to the caller's variables
 				results := v.Results
@@ -700,6 +701,34 @@ func (c *ownChecker) analyse(fi *FuncInfo, returnsRef bool) {
 				}
 				break
 			}
+			// what a helper handed over together with an error that is known to be non-nil
+			// here is not held (the engine presents such a return once per class of the error)
+			for g, lk := range s.Link {
+				if lk.OkVar || fc.Nil[lk.Guard] != nonNil {
+					continue
+				}
+				if lk.Kind == "file" {
+					if s.Files[lk.Key] == "owned" || s.Files[lk.Key] == "owned?" {
+						s.Files[lk.Key] = "none"
+					}
+				} else {
+					s.Bal[lk.Key], s.Def[lk.Key] = 0, 0
+					notHeld[lk.Key] = true
+				}
+				delete(s.Link, g)
+			}
+			// A reference returned next to an error that is known to be non-nil is not taken
+			// over by the caller (the convention every caller in the package follows, and the
+			// one under which helpers are linked to their error result above).
+			errKnown := false
+			if len(v.Results) > 1 {
+				last := unparen(v.Results[len(v.Results)-1])
+				if t := info.TypeOf(last); t != nil && isErrorType(t) {
+					if obj := objOf(info, last); obj != nil && fc.Nil[obj] == nonNil {
+						errKnown = true
+					}
+				}
+			}
 			for _, e := range v.Results {
 				e = unparen(e)
 				if fobj, ok := c.isFileVar(e); ok {
@@ -710,7 +739,7 @@ func (c *ownChecker) analyse(fi *FuncInfo, returnsRef bool) {
 					}
 				}
 				if returnsRef && c.isRefExpr(e) {
-					if _, isIdent := e.(*ast.Ident); isIdent {
+					if _, isIdent := e.(*ast.Ident); isIdent && !notHeld[key(e)] && !errKnown {
 						s.Bal[key(e)]--
 					}
 				}
